@@ -40,7 +40,7 @@ STATIC_REL = {("gp1", "p1", 1), ("gp2", "p2", 1)}
 def arrival_kinds(tier):
     av = ATTRVARS_Q if tier == "quick" else ATTRVARS_T
     kinds = [(ci, ai, p) for ci in range(len(COLVARS)) for ai in range(len(av)) for p in ("p1", "p2")]
-    return kinds + ["explicit"]
+    return kinds + ["explicit", (0, 0, None), (1, 0, None)]        # the last two name no parent at all
 
 
 def bounds(tier):
@@ -72,6 +72,8 @@ def make_arrival(kind, tier, gtf):
     cols.update(COLVARS[ci])
     attrs = {idkey: ["X"]}
     attrs.update({k: list(v) for k, v in av[ai].items()})
+    if p is None:
+        return dict(key="X", cols=cols, attrs=attrs, parents=[])
     attrs[pkey] = [p]
     if gtf:
         attrs["gene_id"] = [GRAND[p]]
